@@ -213,4 +213,33 @@ theorem readData_phi (o : Opts) (m : Mach) (inp : Str) :
         simp only [hn, ↓reduceIte]
         rw [hcond.2, brk_cons_plain _ _ _ hnb]
 
+
+/-! ### invariants that the accounting relies on -/
+
+/-- states in which `temp_buf` may hold stale text (it is only ever consulted after being reset) -/
+def isRaw : State → Bool
+  | .rawData _ | .plaintext | .rawLessThanSign _ | .rawEndTagOpen _ | .rawEndTagName _
+  | .scriptDataEscapeStart _ | .scriptDataEscapeStartDash | .scriptDataEscapedDash _
+  | .scriptDataEscapedDashDash _ | .scriptDataDoubleEscapeEnd
+  | .cdataSection | .cdataSectionBracket | .cdataSectionEnd => true
+  | _ => false
+
+theorem sinkState_raw {s0 s : State} (h : sinkState s0 s) (h0 : isRaw s = false) : s = s0 := by
+  unfold sinkState at h
+  rcases h with h | h | ⟨k, h⟩
+  · exact h
+  · subst h; simp [isRaw] at h0
+  · subst h; simp [isRaw] at h0
+
+/-- outside the raw-text states a transition leaves `temp_buf` empty if it found it empty -/
+theorem transChar_nr (o : Opts) (pol : Pol) (m : Mach) (c : Char)
+    (h : isRaw m.state = false → m.tempBuf = []) :
+    isRaw (transChar o pol m c).1.state = false → (transChar o pol m c).1.tempBuf = [] := by
+  unfold transChar
+  split <;> (repeat' split) <;>
+    (have h1 := fun h0 => sinkState_raw (emitTag_state pol .data m) h0
+     have h2 := fun h0 => sinkState_raw (emitTag_state pol .data (clearTemp m)) h0
+     have h3 := fun h0 => sinkState_raw (emitTag_state pol .data { m with tagSelfClosing := true }) h0
+     simp_all [isRaw, clearTemp, emitTempBuf])
+
 end H5V.Model.HtmlTok
